@@ -3,37 +3,48 @@
 set -u
 cd "$(dirname "$0")"
 export GOFLAGS=-mod=mod GOPROXY=off GOSUMDB=off GOTOOLCHAIN=local CGO_ENABLED=1
-export VERIF_ROOT="$(pwd)"
-mkdir -p .build .scratch evidence replays
+export VERIF_ROOT="${VERIF_ROOT:-$(pwd)}"
+# VERIF_REPO / VERIF_BUILD: development only (a scratch worktree of the repository with its own build
+# directory, so that several people can work at once); the registered commands use /repo and .build
+REPO="${VERIF_REPO:-/repo}"
+B="${VERIF_BUILD:-.build}"
+MODFLAG=""
+mkdir -p "$B" .scratch "$VERIF_ROOT/evidence" "$VERIF_ROOT/replays" 2>/dev/null
+if [ "$REPO" != "/repo" ]; then
+  sed "s#=> /repo#=> $REPO#" go.mod > "$B/go.mod"; cp "$REPO/go.sum" "$B/go.sum"
+  MODFLAG="-modfile=$B/go.mod"
+fi
+[ "$B" != ".build" ] && export VERIF_RACE_BIN="$(cd "$B" && pwd)/vcheck-race"
+[ "$VERIF_ROOT" != "$(pwd)" ] && cp known_findings.json "$VERIF_ROOT/known_findings.json"
 # per-run scratch (logs, leveldb conformance files), removed when the run ends
-export VERIF_SCRATCH="$VERIF_ROOT/.scratch/run-$$"
+export VERIF_SCRATCH="$(pwd)/.scratch/run-$$"
 mkdir -p "$VERIF_SCRATCH"
 trap 'rm -rf "$VERIF_SCRATCH"' EXIT
 build() {
-  cp /repo/go.sum go.sum 2>/dev/null
-  ( go run ./cmd/vrewrite -repo /repo -hooks "$VERIF_ROOT/hooks" -out "$VERIF_ROOT/.build/overlay" ) >.build/rewrite.log 2>&1 || { echo "HARNESS-ERROR rewrite"; cat .build/rewrite.log; exit 2; }
-  go build -tags verif -overlay .build/overlay.json -o .build/vcheck ./cmd/vcheck >.build/build.log 2>&1 || { echo "HARNESS-ERROR build"; tail -50 .build/build.log; exit 2; }
+  [ "$REPO" = "/repo" ] && cp /repo/go.sum go.sum 2>/dev/null
+  ( go run ./cmd/vrewrite -repo "$REPO" -hooks "$(pwd)/hooks" -out "$(cd "$B" && pwd)/overlay" ) >"$B/rewrite.log" 2>&1 || { echo "HARNESS-ERROR rewrite"; cat "$B/rewrite.log"; exit 2; }
+  go build $MODFLAG -tags verif -overlay "$B/overlay.json" -o "$B/vcheck" ${VERIF_CMD:-./cmd/vcheck} >"$B/build.log" 2>&1 || { echo "HARNESS-ERROR build"; tail -50 "$B/build.log"; exit 2; }
 }
 # the free-running -race pass needs its own binary (checks with concurrent bodies only)
 build_race() {
-  go build -race -tags verif -overlay .build/overlay.json -o .build/vcheck-race ./cmd/vcheck >.build/build-race.log 2>&1 || { echo "HARNESS-ERROR build (race)"; tail -50 .build/build-race.log; exit 2; }
+  go build $MODFLAG -race -tags verif -overlay "$B/overlay.json" -o "$B/vcheck-race" ${VERIF_CMD:-./cmd/vcheck} >"$B/build-race.log" 2>&1 || { echo "HARNESS-ERROR build (race)"; tail -50 "$B/build-race.log"; exit 2; }
 }
 case "${1:-}" in
   build) build ;;
   setup)
     build
     build_race
-    ./.build/vcheck selftest || exit 2
+    "$B/vcheck" selftest || exit 2
     ;;
   replay)
     build
-    ./.build/vcheck replay "$2"; exit $?
+    "$B/vcheck" replay "$2"; exit $?
     ;;
   C[0-9][0-9])
     build
     case "$1" in C12|C20) build_race ;; esac
     tier="${2:-${VERIF_TIER:-quick}}"
-    ./.build/vcheck check "$1" --tier "$tier"; exit $?
+    "$B/vcheck" check "$1" --tier "$tier"; exit $?
     ;;
   *) echo "usage: run.sh setup | <Cxx> quick|thorough | replay <file>"; exit 2 ;;
 esac
